@@ -333,6 +333,8 @@ def inst_store_over_regridded_source(kind):
             prog = catalog.p_slice(w, catalog._add_concrete(w, E, (1, 1, 4), (1, 4, 1)), catalog.raw_index(E, ((0, 0, -1),)))
         elif kind == "take-of-stored":
             prog = catalog.source(w, E, "x", (2,), chunks=[(1, 1)])
+        elif kind == "row-of-stored":
+            prog = catalog.source(w, E, "x", (2, 2), chunks=[(2, 1), (1, 2)])
         else:
             prog = catalog.p_sliding_sum(w, E, catalog.source(w, E, "x", (4,), chunks=[(1, 1, 1, 1)]), 0)
         coll = w.fn(catalog.NC, "new_collection")(prog.node)
@@ -354,6 +356,10 @@ def inst_store_over_regridded_source(kind):
         adv = tuple(map(tuple, coll.chunks))
         target = np.empty(tuple(int(sum(c)) for c in adv))
         stored = w.fn("dask_array.io._store", "store")(coll, target, compute=False, return_stored=True, lock=False)
+        if kind == "row-of-stored":
+            # an index on only some axes of the lazily stored array: whatever the optimizer pushes below the store step, the
+            # blocks the step receives are still the blocks its target slices were cut for
+            stored = stored[E.int("row", 0, 2)]
         for stage in ("lowered",):  # (after fusion the store step is part of a fused group)
             st = catalog.stages(E, w, stored.expr, {stage})[stage]
             seen = 0
@@ -382,6 +388,13 @@ def inst_store_over_regridded_source(kind):
             except Exception as ex:
                 return dict(ok=False, detail=f"stored[[1, 0, 0]] raised {type(ex).__name__}: {str(ex)[:100]}")
             return dict(ok=bool(np.array_equal(got, x[[1, 0, 0]])), detail=f"stored[[1, 0, 0]] = {got.tolist()}")
+        if kind == "row-of-stored":
+            A = np.arange(9.0).reshape(3, 3) + 1
+            t = np.zeros((3, 3))
+            r = da.store(da.from_array(A, chunks=((2, 1), (1, 2))), t, lock=False, return_stored=True, compute=False)
+            got = r[values["row"]].compute(scheduler="sync")
+            ok = np.array_equal(got, A[values["row"]]) and all(np.array_equal(t[i], A[i]) or not t[i].any() for i in range(3))
+            return dict(ok=bool(ok), detail=f"stored[{values['row']}] = {got.tolist()}, target afterwards {t.tolist()}")
         if kind == "reversed-sum":
             x = np.arange(6.0)
             y = (da.from_array(x, chunks=((1, 1, 4),)) + da.from_array(x * 10, chunks=((1, 4, 1),)))[::-1]
@@ -408,6 +421,7 @@ def instances(tier):
     out.append(inst_store_over_regridded_source("reversed-sum"))
     out.append(inst_store_over_regridded_source("sliding-sum"))
     out.append(inst_store_over_regridded_source("take-of-stored"))
+    out.append(inst_store_over_regridded_source("row-of-stored"))
     nbs = [1, 2, 3] if q else [1, 2, 3, 4]
     for m in nbs:
         out.append(inst_store([(m,)], [None]))
